@@ -55,4 +55,10 @@ CHECKS = {
   "text": "For generated structures and option settings the reported groups of every conformation must be in bijection (by file position and kind) with an independent census written from the statement (side-chain sites by residue+atom name, termini by the streaming chain-start rule, disulfides by the S-S distance rule), carry the tabulated model pKa, report bridged cysteines as non-titrating 99.99; the parsed summary rows of the .pka file and the average conformation must show each group exactly once; hetero groups must carry the model pKa/charge configured for their type (parameter file read by an independent reader) and each of the 19 library ligands / 21 ion names must yield its chemically expected group types.",
   "note": "Trusts vlib/census.py (about 80 lines), vlib/pkaparse.py and the hand-written ligand library with its expected group types. Groups discarded through covalent coupling are required to be absent from the summary (design of the shipped parameters). Multi-conformation inputs only with identical composition (C08 covers the rest). Open finding F5 excluded by signature.",
  },
+ "C02": {
+  "level": "exploration",
+  "technique": "property-based testing (Hypothesis): arithmetic identity per group + fixed-column parse of the written .pka compared with the API record, over generated structures x options x parameter-file variants",
+  "text": "For every group of every conformation and of the average the reported pKa must equal model pKa + both desolvation terms + the sum of all listed determinants (1e-9; bridged cysteines exactly 99.99), for generated single- and multi-conformation structures under {none, -i, -c, -d} and parameter files that toggle remove_penalised_group / shared_determinants / common_charge_centre; the written file is parsed by columns and must list exactly the expected groups, with table pKa == summary pKa == a correct rounding of the API value, matching desolvation columns and counts, row k of column t equal to the k-th determinant of type t, padding elsewhere.",
+  "note": "Trusts vlib/pkaparse.py and the ordering rule (chains x write_out_order) re-implemented in the check. Fixed findings F6 and F12 are regression cases (F12 witness: 3SGB with shared_determinants 1, remove_penalised_group 0).",
+ },
 }
